@@ -245,7 +245,7 @@ fn wal_commit_ends(wal: &[u8]) -> Vec<usize> {
 
 /// forward and reverse iteration of a whole event-log file by the real iterator: the commits
 /// (first 4 bytes, hex) in the order each direction yields them, or "err"
-async fn both_directions(rel: &str, bytes: &[u8], scratch: &Path, account_id: &AccountId) -> (String, String) {
+pub async fn both_directions(rel: &str, bytes: &[u8], scratch: &Path, account_id: &AccountId) -> (String, String) {
     let _ = std::fs::create_dir_all(scratch);
     let p = scratch.join("d.events");
     std::fs::write(&p, bytes).unwrap();
@@ -262,7 +262,14 @@ async fn both_directions(rel: &str, bytes: &[u8], scratch: &Path, account_id: &A
                         match log.iter(reverse).await {
                             Ok(mut it) => loop {
                                 match it.next().await {
-                                    Ok(Some(rec)) => v.push(hex::encode(&rec.commit()[..4])),
+                                    Ok(Some(rec)) => {
+                                        v.push(hex::encode(&rec.commit()[..4]));
+                                        // an iteration that does not end (a row of size zero): reported, not waited for
+                                        if v.len() > 200_000 {
+                                            v = vec!["hang".to_string()];
+                                            break;
+                                        }
+                                    }
                                     Ok(None) => break,
                                     Err(_) => {
                                         failed = true;
